@@ -96,14 +96,24 @@ end Cors
 /-! ## methodoverride -/
 namespace Method
 
+/-- the override the request carries: the value of the configured override header, else (when a
+    query parameter is configured) the value of that query parameter — as `Header.Get` and
+    `URL.Query().Get` report them; "" = the request asks for no override -/
+def asked (cfg : Cfg) (r : Req) : Bytes :=
+  if get r.hdr cfg.header ≠ [] then get r.hdr cfg.header
+  else if cfg.queryParam ≠ [] then get r.qry cfg.queryParam
+  else []
+
 /-- the handler runs, and the method it sees is the request's own unless the request method is an
-    allowed source (`onlyOn`) and the method seen is an allowed target (`allow`), both compared
-    upper-cased as the documentation of the options says -/
+    allowed source (`onlyOn`), the method seen is an allowed target (`allow`) — both compared
+    upper-cased as the documentation of the options says — and that target is the one the request
+    asked for through the configured override header / query parameter (normalised) -/
 def specOK (cfg : Cfg) (r : Req) (o : Obs) : Bool :=
   o.ran &&
   (o.seen == r.method ||
    ((cfg.onlyOn.map (app r.upper)).contains (app r.upper r.method) &&
-    (cfg.allow.map (app r.upper)).contains o.seen))
+    (cfg.allow.map (app r.upper)).contains o.seen &&
+    asked cfg r != [] && o.seen == app r.norm (asked cfg r)))
 
 end Method
 
